@@ -227,9 +227,6 @@ theorem foldl_valuesFrom (k : Nat) (xs : List (NArr β)) (z : β) :
     rw [this, foldl_values x z, foldl_valuesFrom (k + 1) xs, add_assoc]
 end
 
-theorem getNevents_eq {α : Type} (h : Hist α β) (b : Bool) :
-    getNevents h b = if b then total h.bins + h.nOut else total h.bins := by
-  simp [getNevents, NArr.values, foldl_values, zero_add']
 end Monoid
 
 /-! ## the walk of `fill` -/
